@@ -192,11 +192,18 @@ class CompleteWorkflowHandler(StabilizeHandler[CompleteWorkflow]):
                 return WorkflowStatus.SUCCEEDED
 
         # Nothing is running and what is unfinished waits for a signal or an
-        # operator (SUSPENDED / PAUSED), possibly for longer than any retry
-        # budget. The waiting stage's own completion queues CompleteWorkflow
-        # again, so neither poll nor give up on it here.
+        # operator (SUSPENDED / PAUSED) - or sits behind such a stage -
+        # possibly for longer than any retry budget. The end of the waiting
+        # stage's branch queues CompleteWorkflow again, so neither poll nor
+        # give up on it here.
         waiting = {WorkflowStatus.SUSPENDED, WorkflowStatus.PAUSED}
-        if all(s in CONTINUABLE_STATUSES or s in waiting for s in statuses):
+        if (
+            any(s in waiting for s in statuses)
+            and WorkflowStatus.RUNNING not in statuses
+            and not any(
+                stage.status == WorkflowStatus.NOT_STARTED and stage.all_upstream_stages_complete() for stage in stages
+            )
+        ):
             return None
 
         # Still running - check retry count before re-queuing
